@@ -69,7 +69,7 @@ pub fn norm(u: &str) -> Option<String> {
 }
 
 fn gen_location(rng: &mut Rng) -> (Option<Vec<u8>>, &'static str) {
-    match rng.below(12) {
+    match rng.below(16) {
         0 => (None, "missing"),
         1 => (Some(b"http://other.test/abs".to_vec()), "absolute"),
         2 => (Some(b"https://secure.test:8443/s?q=1".to_vec()), "absolute-https"),
@@ -85,6 +85,17 @@ fn gen_location(rng: &mut Rng) -> (Option<Vec<u8>>, &'static str) {
                 (Some(b"http://".to_vec()), "unparsable")
             } else {
                 (Some(b"ftp://files.test/pub/x".to_vec()), "non-http-scheme")
+            }
+        }
+        // relative references that carry a URL inside (return/next parameters): still relative (RFC 3986 §4.2:
+        // only a leading `scheme:` makes a reference absolute)
+        12 => (Some(b"/login?next=http://example.org/home".to_vec()), "absolute-path-url-in-query"),
+        13 => (Some(b"../sso/check?return=https://portal.example/cb&x=1".to_vec()), "relative-url-in-query"),
+        14 => {
+            if rng.chance(1, 2) {
+                (Some(b"/r/http://inner.test/x".to_vec()), "absolute-path-url-in-path")
+            } else {
+                (Some(b"?u=http://a.test/".to_vec()), "query-only-url-in-query")
             }
         }
         _ => (Some(b"sub/page".to_vec()), "relative"),
